@@ -41,6 +41,7 @@ def extra_checks(ctx, exes):
         ctx.violations.append({"kind": "broken-proof", "case": "Gen_RangeProgram: rprog_check_range_ok", "impl": M3["program"], "model": M3["failed"], "spec": "", "class": "m3",
                                "what": "the program translated from the AST of check_range_doesnt_cross_app_sbx_boundary is no longer provably equal to Ptr.check_range for all inputs"})
 DRIVERS = drivers("BULK", ["memset", "memcpy", "memcmp", "vrange", "usp", "deny", "grant"]) + \
+    [dict(name="verify", src="verify.cpp", defines=[], ops=["cv09"])] + \
     [dict(name="ptr_grant_32", src="ptr.cpp", defines=["VERIF_CFG=verif_cfg32g", "PART_BULK", "PTR_GRANT"], ops=["ggrant32", "gdeny32"])]   # back end WITH grant/deny
 M64 = 1 << 64
 
@@ -144,6 +145,21 @@ def gen_cases(tier, rng):
                         cases.append("ggrant32 %d %d 0 %d %d" % (src, num, A + 8192, 4096))
                     if in_sbx and (in_a or src == 0 or straddles):
                         cases.append("gdeny32 %d %d 0 %d" % (src, num, APP_BASE + 128))
+        if cfg == "32":
+            # unverified_safe_pointer_because on a pointer CELL in sandbox memory, rewritten while the range check runs
+            TOT = 1 << 32
+
+            def le4(v):
+                return [(v >> (8 * i)) & 255 for i in range(4)]
+            for cnt in (0, 1, 16, 4096):
+                for rep in (0, 16, TOT - 4096, (TOT - cnt) % TOT, (TOT - cnt + 1) % TOT, TOT - 1):
+                    w = le4(rep) + [0x33, 0x44]
+                    hx = "".join("%02x" % b for b in w)
+                    cases.append("cv09 uspc 0 %d 0 %s -" % (cnt, hx))
+                    for new in (0, 16, TOT - 1, TOT - 16):
+                        nb = le4(new)
+                        for t in (0, 1):
+                            cases.append("cv09 uspc 0 %d 0 %s %s" % (cnt, hx, ",".join("%d:%d:%d" % (t, i, nb[i]) for i in range(4))))
         for elk in ("char", "int"):
             for cnt in (0, 1, 5):
                 cases.append("vrange%s 0 %s %d" % (cfg, elk, cnt))
